@@ -1,2 +1,28 @@
-"""Per-property metadata for evidence files."""
-PROPERTY_META = {}
+"""Per-property metadata: what the deductive cone proves, what stays with the bounded stand-in."""
+
+COMMON_ASSUME = [
+    "A1 floats as mathematical reals; round() axiomatised",
+    "E3 the induction over append / operation histories is the standard representation-invariant argument (DESIGN.md section 6), stated, not mechanised",
+    "names of distinct templates denote distinct keys; user supplied input names are not Candle attribute names and not in the indicator's own namespace (premise of C13)",
+]
+
+PROPERTY_META = {
+    "C01": {"claimed": True, "explanation": "per shipped indicator class: the REAL loop body of Indicator.calculate is executed symbolically for an arbitrary index i on a candle list of unbounded length; obligations: every candle access lies in [max(0,i-W), i] (no wrap-around, no look-ahead), every write goes to the class's own namespace at index i, own keys are not read at i before being written, nothing raises, and the class invariant Inv(i) is re-established from Inv(j<i); batch == incremental then follows by induction over the append schedule (E3). Candle-store obligations (append/collapse/merge) are decided by the bounded stand-in in this round.",
+            "technique": "contract-based deductive verification: VCs generated from the repository AST (hexvc), discharged by z3/cvc5; bounded schedule-vs-batch stand-in for the candle store"},
+    "C02": {"claimed": True, "explanation": "same cone as C01 seen as finality: read frame [max(0,i-W), i] for every indicator step and for the movement helpers they call; write frame = own namespace at i only. Collapse 'frozen prefix' is decided by the bounded stand-in in this round.",
+            "technique": "contract-based deductive verification (frame obligations on the real indicator bodies) + bounded snapshot-prefix stand-in"},
+    "C04": {"claimed": True, "explanation": "SMA, EMA, RMA, WMA, VWMA, HMA: presence exactly from the first full window (symbolic late start s of the input), window / recurrence formulas within the rounding slack, decay-weighted RMA seed, for symbolic period, smoothing, round_value; inputs plain or dotted names. HMA for period >= 4 (periods 2,3 bounded only).",
+            "technique": "contract-based deductive verification: class invariants as postconditions of the real driver loop body, Sigma summarisation, z3"},
+    "C05": {"claimed": True, "explanation": "TR, ATR, STDEV (running mean/variance identities deferred to the stand-in), BBANDS, KC, HLA, Supertrend (flip and ratchet rules), STDEVTHRES, Counter proved against the statement's definitions; Donchian / HighestLowest are decided by the bounded stand-in in this round.",
+            "technique": "contract-based deductive verification + bounded reference-implementation stand-in"},
+    "C06": {"claimed": True, "explanation": "RSI (Wilder seeds and recurrences, 100 without losses), MACD (through the modular EMA signal-line contract), ROC, STOCH, TSI, ADX (through three RMA helper contracts), OBV, VWAP proved; AROON and the STOCH %stoch formula / ranges are decided by the bounded stand-in in this round.",
+            "technique": "contract-based deductive verification with modular helper contracts + bounded reference-implementation stand-in"},
+    "C09": {"claimed": True, "explanation": "every noraise:* obligation (ZeroDivisionError, TypeError, IndexError, KeyError, ValueError) of every indicator step, plus the presence clauses 'reading is not None iff j >= warm-up' (no gaps) and result-sort clauses; float-only failures (zero-margin obligations such as sqrt of a running variance) are covered by the bounded adversarial float stand-in.",
+            "technique": "contract-based deductive verification (no-raise and presence obligations) + bounded adversarial float stand-in"},
+    "C10": {"claimed": True, "explanation": "the bound / relation clauses of the class invariants (RSI in [0,100], TR >= high-low >= 0, ATR >= 0, STDEV >= 0, ordered bands, MACD histogram, Supertrend direction / long / short, OBV steps, Counter, every reading rounded); ranges of STOCH/AROON/ADX/TSI and 'averages within the range of their inputs' are decided by the bounded stand-in.",
+            "technique": "contract-based deductive verification (invariant clauses) + bounded stand-in"},
+    "C14": {"claimed": True, "explanation": "recompute-step tasks: the REAL loop body of Indicator.calculate_index re-establishes Inv(i) from Inv(j<=i) for every class without reading its own old entry at i (frame-read-own); purge depth, negative indices and operation sequences are decided by the bounded stand-in in this round.",
+            "technique": "contract-based deductive verification (recompute-step obligations) + bounded operation-sequence stand-in"},
+    "C16": {"claimed": True, "explanation": "index normalisation helpers (valid_index, absindex, validate_index) and reading_by_index / reading_period / candles_sum proved functionally; movement and pattern functions are decided by the bounded stand-in in this round.",
+            "technique": "contract-based deductive verification of the index helpers + bounded truncation/negative-index stand-in"},
+}
